@@ -9497,11 +9497,14 @@ def aten_stft(
     normalized: bool = False,
     onesided: Optional[bool] = None,
     return_complex: Optional[bool] = None,
+    align_to_window: Optional[bool] = None,
 ) -> TFloat:
-    """stft(Tensor self, int n_fft, int? hop_length=None, int? win_length=None, Tensor? window=None, bool normalized=False, bool? onesided=None, bool? return_complex=None) -> Tensor"""
+    """stft(Tensor self, int n_fft, int? hop_length=None, int? win_length=None, Tensor? window=None, bool normalized=False, bool? onesided=None, bool? return_complex=None, bool? align_to_window=None) -> Tensor"""
 
     # NOTE: regardless of the value of return_complex, we always return a real representation.
     del return_complex
+    if align_to_window is not None:
+        raise NotImplementedError("stft: align_to_window is not supported")
 
     # Get STFT sizes
     if hop_length is None:
